@@ -84,6 +84,9 @@ def cells(tier, seed):
             if fam != "exact" and (shp not in (SHAPES[1], SHAPES[2], SHAPES[4]) or val == 1):
                 continue
         out.append({"fam": fam, "shape": list(shp), "mb": list(mb), "trb": list(trb), "teb": list(teb), "val": val, "tier": tier})
+        if shp[1] == 1 and not (mb or trb or teb) and val == 0:
+            # the documented shorthand for d = 1: training and test inputs given as vectors of length n (the library adds the last dimension)
+            out.append({"fam": fam, "shape": list(shp), "mb": [], "trb": [], "teb": [], "val": val, "tier": tier, "form": "vec"})
     return out
 
 
@@ -170,10 +173,11 @@ def run_cell(cell, seed):
         loose = any(x in names for x in ("cg", "fpv"))
         atol = 1e-5 if loose else 1e-8
         try:
-            model = build(cell, seed, X, y, noise, mb)
+            vec = cell.get("form") == "vec"
+            model = build(cell, seed, X.squeeze(-1) if vec else X, y, noise, mb)
             with settings_ctx(names), (contextlib.nullcontext() if "attach" in names else torch.no_grad()):
                 torch.manual_seed(7)
-                out = model(Xs)
+                out = model(Xs.squeeze(-1) if vec else Xs)
                 mean = out.mean.reshape(*out.mean.shape[: out.mean.dim() - (2 if mt else 1)], -1)
                 cov = out.covariance_matrix
                 var = out.variance.reshape(mean.shape)
